@@ -139,6 +139,159 @@ def run_dd(data, ops):
     return " ".join(out)
 
 
+def run_ws(ops):
+    """the REAL BitstreamWriter on a program WITH seeks; the file content is compared as bytes"""
+    from vc2_conformance.bitstream.io import BitstreamWriter
+
+    f = BytesIO()
+    w = BitstreamWriter(f)
+    out = []
+    for op in ops:
+        a = op[1:]
+        try:
+            c = op[0]
+            if c == "b":
+                w.write_bit(int(a))
+                out.append("ok")
+            elif c == "n":
+                k, v = a.split(",")
+                w.write_nbits(int(k), int(v))
+                out.append("ok")
+            elif c == "u":
+                w.write_uint(int(a))
+                out.append("ok")
+            elif c == "B":
+                w.bounded_block_begin(int(a))
+                out.append("ok")
+            elif c == "E":
+                out.append(str(w.bounded_block_end()))
+            elif c == "k":
+                by, bi = a.split(",")
+                w.seek(int(by), int(bi))
+                out.append("ok")
+            elif c == "t":
+                t = w.tell()
+                out.append("%d.%d" % (t[0], t[1]))
+            elif c == "r":
+                out.append(str(w.bits_remaining))
+            elif c == "f":
+                w.flush()
+                out.append("ok")
+            else:
+                out.append("bad-op")
+        except Exception as e:  # noqa
+            out.append(_err(e))
+            break
+    if out and out[-1] == "ERR:ZeroPastEnd":
+        out.append("FILE:?")
+    else:
+        w.flush()
+        out.append("FILE:" + f.getvalue().hex())
+    return " ".join(out)
+
+
+def rand_ws_prog(rng):
+    """writes, tells and SEEKS (backwards and forwards, into the middle of bytes), inside and outside bounded blocks"""
+    ops = []
+    pos = 0          # an estimate of the bit position, to aim the seeks near written data
+    in_block = False
+    for _ in range(rng.randrange(2, 12)):
+        c = rng.random()
+        if c < 0.25:
+            k = rng.choice([1, 3, 8, 8, 13])
+            ops.append("n%d,%d" % (k, rng.getrandbits(k)))
+            pos += k
+        elif c < 0.4:
+            v = rng.choice([0, 0, 1, 2, 5, 100])
+            ops.append("u%d" % v)
+            pos += 2 * (v + 1).bit_length() - 1
+        elif c < 0.5:
+            ops.append("b%d" % rng.randrange(2))
+            pos += 1
+        elif c < 0.72:
+            target = max(0, pos + rng.choice([-17, -9, -8, -3, -1, 0, 0, 1, 4, 8, 20]))
+            ops.append("k%d,%d" % (target // 8, 7 - target % 8))
+            pos = target
+        elif c < 0.8:
+            ops.append("t")
+        elif c < 0.86:
+            ops.append("r")
+        elif c < 0.9:
+            ops.append("f")
+        elif not in_block:
+            ops.append("B%d" % rng.choice([0, 1, 4, 8, 12, 16, 30, -3]))
+            in_block = True
+        else:
+            ops.append("E")
+            in_block = False
+    ops.append("t")
+    return ops
+
+
+def violates_ws(ops):
+    """bounded blocks by POSITION, on the real BitstreamWriter with seeks: a block begun at bit offset S with length L
+    ends at S+L wherever seeks go; a 0 bit is refused exactly when it would lie at or beyond S+L; the position advances
+    by the bits written before the end; outside a block every bit is written and counted"""
+    from vc2_conformance.bitstream.io import BitstreamWriter, to_bit_offset
+
+    f = BytesIO()
+    w = BitstreamWriter(f)
+    block = None   # (S, L)
+    for i, op in enumerate(ops):
+        c, a = op[0], op[1:]
+        P = to_bit_offset(*w.tell())
+        bits = None
+        try:
+            if c == "b":
+                bits = [int(a)]
+                w.write_bit(int(a))
+            elif c == "n":
+                k, v = (int(x) for x in a.split(","))
+                bits = [(v >> (k - 1 - j)) & 1 for j in range(k)]
+                w.write_nbits(k, v)
+            elif c == "u":
+                bits = [1 if ch == "1" else 0 for ch in bits_str_of_uint(int(a))]
+                w.write_uint(int(a))
+            elif c == "B":
+                w.bounded_block_begin(int(a))
+                block = (P, int(a))
+            elif c == "E":
+                w.bounded_block_end()
+                block = None
+            elif c == "k":
+                by, bi = (int(x) for x in a.split(","))
+                w.seek(by, bi)
+                if to_bit_offset(*w.tell()) != to_bit_offset(by, bi):
+                    return "op %d (%s): tell() after seek is %s" % (i, op, w.tell())
+            elif c == "f":
+                w.flush()
+            raised = None
+        except Exception as e:  # noqa
+            raised = _err(e)
+        if bits is not None:
+            end = None if block is None else block[0] + max(0, block[1])   # a negative length is an already exhausted block
+            zero_past = end is not None and any(b == 0 and P + j >= end for j, b in enumerate(bits))
+            if raised == "ERR:ZeroPastEnd" and not zero_past:
+                return "op %d (%s) at bit %d: a 0 bit inside the block (which ends at bit %s) was refused" % (i, op, P, end)
+            if raised is None and zero_past and P <= end:
+                return "op %d (%s) at bit %d: a 0 bit beyond the end of the block (bit %s) was accepted" % (i, op, P, end)
+            if raised is None:
+                written = len(bits) if end is None else max(0, min(len(bits), end - P))
+                if to_bit_offset(*w.tell()) != P + written:
+                    return "op %d (%s) at bit %d: position advanced to %d, expected %d" % (i, op, P, to_bit_offset(*w.tell()), P + written)
+        if raised is not None:
+            return None  # the program stops at the first error, as in run_ws
+    return None
+
+
+def bits_str_of_uint(v):
+    m = v + 1
+    out = ""
+    for i in range(m.bit_length() - 2, -1, -1):
+        out += "0" + str((m >> i) & 1)
+    return out + "1"
+
+
 def run_wr(ops):
     from vc2_conformance.bitstream.io import BitstreamWriter
     from bitarray import bitarray
@@ -516,9 +669,30 @@ class Prop(object):
             k = [t for t in e.split() if t.startswith("ERR")]
             ctx.count("io:random:%s" % (k[0] if k else "no-error"))
         ctx.diff("io random programs model == real readers/writer", lines, exp, nontriv)
+        # ---- the writer with seeks (file content as bytes, tell, bounded-block accounting)
+        lines, exp = [], []
+        for i in range(ctx.n(3000, 40000)):
+            prog = rand_ws_prog(rng)
+            lines.append("ws %s" % " ".join(prog))
+            exp.append(run_ws(prog))
+            why = violates_ws(prog)
+            if why and not getattr(self, "_wsbad", None):
+                self._wsbad = {"kind": "seek-writer", "ops": prog, "why": why}
+        for e in exp:
+            k = [t for t in e.split() if t.startswith("ERR")]
+            ctx.count("io:seek-writer:%s" % (k[0] if k else "no-error"))
+        ctx.diff("io writer programs WITH seeks: results, tell, bits_remaining and file bytes, model == real BitstreamWriter", lines, exp, nontriv)
+
+    def findings(self, ctx):
+        return [self._wsbad] if getattr(self, "_wsbad", None) else []
 
     def search(self, ctx):
         rng = ctx.rng("search")
+        for _ in range(ctx.n(6000, 60000)):
+            prog = rand_ws_prog(rng)
+            why = violates_ws(prog)
+            if why:
+                return {"kind": "seek-writer", "ops": prog, "why": why}
         for v in range(0, 300):
             why = violates_roundtrip([v], [v, -v])
             if why:
@@ -555,6 +729,8 @@ class Prop(object):
             why = violates_fixed_width(fi["n"], fi["v"])
         elif fi["kind"] == "roundtrip":
             why = violates_roundtrip(fi["uints"], fi["sints"])
+        elif fi["kind"] == "seek-writer":
+            why = violates_ws(fi["ops"])
         else:
             why = violates_readers_agree(bytes.fromhex(fi["data"]), fi["length"])
         print("replay %s -> %s" % (fi, why or "property holds"))
